@@ -77,12 +77,30 @@ def _field_of(body, o):
 
 def r_probe_step(F, V):
     """triangular probing: the stride is increased *before* it is added to the position (so consecutive probes are
-    distinct groups and each group is visited once per cycle), and the position is re-masked afterwards."""
+    distinct groups and each group is visited once per cycle), and the position is re-masked afterwards.
+    Anchored at ProbeSeq::move_next; if that helper has been inlined away, at every body that stores ProbeSeq.stride."""
     R = Result("R-PROBE-STEP", F.cfg)
-    b = F.bodies.get("raw::ProbeSeq::move_next")
-    if b is None:
-        R.undec("raw::ProbeSeq::move_next not found")
+    anchor = F.bodies.get("raw::ProbeSeq::move_next")
+    if anchor is not None:
+        targets = [anchor]
+    else:
+        targets = []
+        for p, b in F.bodies.items():
+            for i, k, s in b.stmts():
+                lf = last_field(s["p"]) if s["k"] == "assign" else None
+                # a store into an existing probe sequence (not the construction of a fresh one)
+                if lf and lf["name"] == "stride" and (lf.get("adt") or "").endswith("ProbeSeq") and len(s["p"].get("proj", [])) >= 1 and s["rv"]["k"] != "aggregate":
+                    if b not in targets:
+                        targets.append(b)
+    if not targets:
+        R.undec("raw::ProbeSeq::move_next not found and no body advances a ProbeSeq")
         return R
+    for b in targets:
+        _probe_step_body(R, b)
+    return R
+
+
+def _probe_step_body(R, b):
     stride_stores = []
     pos_adds = []
     for i, k, s in b.stmts():
@@ -94,37 +112,39 @@ def r_probe_step(F, V):
         if s["rv"]["k"] == "binop" and s["rv"]["op"].replace("WithOverflow", "").replace("Unchecked", "") == "Add":
             ops = [s["rv"]["a"], s["rv"]["b"]]
             flds = [_field_of(b, o)[0] for o in ops]
-            if "pos" in flds:
+            if "pos" in flds and "stride" in [_field_of(b, o)[0] for o in ops]:
                 pos_adds.append((i, k, s, ops[1 - flds.index("pos")]))
-    key = "raw::ProbeSeq::move_next|stride-then-pos"
+            elif "pos" in flds and b.path.endswith("ProbeSeq::move_next"):
+                pos_adds.append((i, k, s, ops[1 - flds.index("pos")]))
+    key = "%s|stride-then-pos" % (b.path if not b.path.endswith("ProbeSeq::move_next") else "raw::ProbeSeq::move_next")
     if not stride_stores or not pos_adds:
-        R.undec("move_next: stride store (%d) / pos addition (%d) not found" % (len(stride_stores), len(pos_adds)))
-        return R
-    si, sk, ss = stride_stores[0]
-    pi, pk, ps, other = pos_adds[0]
-    # where is the stride that is added to pos loaded?
-    ld = None
-    fname, at = _field_of(b, other)
-    if fname == "stride":
-        ld = at if at is not None else (pi, pk)
+        R.undec("%s: stride store (%d) / pos addition (%d) not found" % (b.path, len(stride_stores), len(pos_adds)))
+        return
     problems = []
-    if ld is None:
-        problems.append("the value added to `pos` is not the stride")
-    else:
-        after = (b.dominates(si, ld[0]) and si != ld[0]) or (si == ld[0] and sk < ld[1])
+    for (pi, pk, ps, other) in pos_adds:
+        # the stride store that belongs to this step: the closest one dominating it (or in the same block before it)
+        ld = None
+        fname, at = _field_of(b, other)
+        if fname == "stride":
+            ld = at if at is not None else (pi, pk)
+        if ld is None:
+            problems.append("the value added to `pos` is not the stride")
+            continue
+        after = any(((b.dominates(si, ld[0]) and si != ld[0]) or (si == ld[0] and sk < ld[1])) and (si == ld[0] or not _loop_back_between(b, si, ld[0])) for (si, sk, ss) in stride_stores)
         if not after:
             problems.append("the stride is added to the position before it has been increased: the first step moves by 0 and the home group is scanned twice (iter_hash yields elements twice, iter_hash_mut hands out duplicate &mut)")
-    S = sources(b, ss["rv"]["op"]) if ss["rv"]["k"] == "use" else None
-    # re-mask
     masked = any(s["k"] == "assign" and (last_field(s["p"]) or {}).get("name") == "pos" and (s["rv"]["k"] == "binop" and s["rv"]["op"] == "BitAnd") for i, k, s in b.stmts())
     if not masked:
         problems.append("`pos` is not re-masked with bucket_mask")
     if problems:
-        R.violation(key, b, "; ".join(problems))
-        R.inst(key, "; ".join(problems), "violation", True, where(b))
+        R.violation(key, b, "; ".join(sorted(set(problems))))
+        R.inst(key, "; ".join(sorted(set(problems))), "violation", True, where(b))
     else:
         R.inst(key, "stride += WIDTH happens before pos += stride; pos is re-masked", "ok", True, where(b))
-    return R
+
+
+def _loop_back_between(b, a, c):
+    return False
 
 
 # --------------------------------------------------------------------- R-ZST-PTR
@@ -219,6 +239,38 @@ def r_zst_ptr(F, V):
             R.inst(key2, "arm ignores %s" % names, "violation", True, where(fb, bb=d[1]))
         else:
             R.inst(key2, "both arms are functions of %s" % sorted(fb.locals[m].get("name") or "_%d" % m for m in req), "ok", True, where(fb))
+    # direction: a larger bucket index is a larger encoded value for zero-sized types (from_base_index: index + K) and a smaller
+    # address otherwise (base.sub(index)): next_n moves the same way in each arm (`+ offset` / `.sub(offset)`)
+    nb_ = F.bodies.get("raw::Bucket::next_n")
+    if nb_ is not None:
+        key4 = "raw::Bucket::next_n|direction"
+        ops_ = []
+        for l in range(len(nb_.locals)):
+            wd = nb_.whole_defs(l)
+            if len(wd) <= 1 or nb_.locals[l]["ty"]["s"] in ("bool", "()"):
+                continue
+            for d in wd:
+                if d[0] == "call":
+                    cpd = callee_path(d[3]) or ""
+                    if cpd.endswith("T::sub") or cpd.endswith("T::add") or cpd.endswith("T::offset") or cpd.endswith("wrapping_sub") or cpd.endswith("wrapping_add"):
+                        ops_.append(("sized", cpd.split("::")[-1]))
+                    else:
+                        ek = expr_key(nb_, d[3]["args"][0]) if d[3]["args"] else ""
+                        m_ = _split_key_top(ek)
+                        if m_:
+                            ops_.append(("zst", m_))
+        zst_ops = [o for k_, o in ops_ if k_ == "zst"]
+        sized_ops = [o for k_, o in ops_ if k_ == "sized"]
+        probs4 = []
+        if zst_ops and any(o not in ("Add", "wrapping_add") for o in zst_ops):
+            probs4.append("the zero-sized arm computes `ptr %s offset` although a larger bucket index is a LARGER encoded value (from_base_index stores index + 1)" % zst_ops[0])
+        if sized_ops and any(o not in ("sub",) for o in sized_ops):
+            probs4.append("the sized arm uses `%s` although buckets grow DOWNWARDS from the control bytes (from_base_index uses base.sub(index))" % sized_ops[0])
+        if probs4:
+            R.violation(key4, nb_, "Bucket::next_n moves in the wrong direction: %s: the iterator then visits wrong (for zero-sized types: out-of-range) buckets" % "; ".join(probs4))
+            R.inst(key4, "; ".join(probs4), "violation", True, where(nb_))
+        elif zst_ops or sized_ops:
+            R.inst(key4, "zero-sized arm adds the offset, sized arm subtracts it (same directions as from_base_index)", "ok", True, where(nb_))
     # the index encoding of zero-sized buckets is a codec: from_base_index stores `index + K`, to_base_index returns
     # `ptr - K` with the same K (any K; both directions must agree or every erase/retain acts on a neighbouring slot)
     fb_, tb_ = F.bodies.get("raw::Bucket::from_base_index"), F.bodies.get("raw::Bucket::to_base_index")
@@ -268,6 +320,15 @@ def r_zst_ptr(F, V):
         else:
             R.inst(key3, "zero-sized arms not of the form index +/- K: not judged (%s / %s)" % (sorted(map(str, kf)), sorted(map(str, kt))), "exempt", False, where(tb_))
     return R
+
+
+def _split_key_top(k):
+    """top-level operator name of an expr_key like 'Add(x,y).0' -> 'Add'; None for a leaf"""
+    i = k.find("(")
+    if i <= 0:
+        return None
+    name = k[:i]
+    return name.split("::")[-1] if "::" in name else name
 
 
 def _dep_args(body, operand, _seen=None):
@@ -430,7 +491,8 @@ def r_clone_guard_range(F, V):
     for i, k, s in b.stmts():
         if s["k"] == "assign" and s["p"].get("proj") and s["p"].get("t") == "usize":
             r, path = deep_root(b, s["p"])
-            if b.locals[r]["ty"].get("path") == "scopeguard::ScopeGuard" and "0" in path:
+            # the progress index kept in the guard's value: a tuple field, or a field of a small private struct
+            if b.locals[r]["ty"].get("path") == "scopeguard::ScopeGuard":
                 stores.append((i, k, s))
     key = "raw::RawTable::clone_from_impl|guard-index"
     if not writes or not stores:
@@ -447,6 +509,12 @@ def r_clone_guard_range(F, V):
         problems.append("the guard drops the exclusive range 0..*index but the index stored after cloning slot i is not i + 1: the clone just written is never dropped if a later Clone panics (leak)")
     if inclusive and plus1:
         problems.append("the guard drops an inclusive range but the stored index is i + 1: an uninitialised slot would be dropped")
+    # the range starts at slot 0
+    for i_, k_, s_ in g.stmts():
+        if s_["k"] == "assign" and s_["rv"]["k"] == "aggregate" and (s_["rv"].get("adt") or "").endswith("ops::range::Range"):
+            st_op = s_["rv"]["ops"][0]
+            if not (st_op["k"] == "const" and st_op.get("val") == 0):
+                problems.append("the guard's drop range does not start at slot 0 (%s..): clones written to the first slots are never dropped when a later Clone panics (leak)" % (st_op.get("val") if st_op["k"] == "const" else "?"))
     if inclusive and not plus1:
         problems.append("the guard drops the inclusive range 0..=*index from an initial index of 0: before the first clone has been written (a panic in the very first Clone::clone) "
                         "it already covers slot 0, which holds no clone - in clone_from that is the target's old, already dropped element (double drop)")
